@@ -2,6 +2,7 @@ import HC.Proofs.Frame
 import HC.Proofs.Bitfield
 import HC.Proofs.LiveRefine
 import HC.Proofs.Reopen
+import HC.Proofs.Persist
 /-!
 # C01 — log contents equal an append-only list model, across close and reopen
 
@@ -17,9 +18,13 @@ held set, hint = first missing index, every held block's bytes sit in the data s
 prefix-sum offset.  The flush cadence (every fourth operation / 64 KiB) is inside the model, so the
 theorem covers histories in which nodes move from memory to the store at arbitrary points.
 
-What is **not** proved (validated by the correspondence run): that `Hypercore::new` on the disk left by
-such a history reconstructs a state satisfying `Rep` (reopen / replay — `Full` below), hence
-`refines_partial` keeps its name for the reopen components:
+**`history_then_reopen`**: after any such history, `Hypercore::new` on the four stores yields a core that
+represents the same abstract log — replay of the logged entries over the flushed tree and bitfield stores
+(`reopen_refines`, `Persist`: bitfield pages decode to the bits in memory, `full_roots` = reference roots,
+`truncate` + commit rebuild the roots) — **provided** the oplog store opens to the header of the last flush
+and the entries logged since.  That proviso is the oplog byte layer, proved separately at protocol level
+(C02) and for the JavaScript layout (C06), not yet composed with this theorem; hence `refines_partial`
+keeps its name for the reopen components:
 
 * `entry_reopen`   : every log entry the crate can write (any combination of the four sections)
   decodes to itself, whatever follows it in the file;
@@ -95,7 +100,7 @@ theorem created_refines (C : Crypto) (hC : HashWF C) (pk sk : Bytes) (ops : List
 /-- **C01, reopen part.**  If the oplog opens to the header of the last flush and the entries logged
     since (what C02's protocol theorems and C06's layout theorems establish at their level), the tree
     and bitfield stores hold the state of that flush, the entries lead from that state to the log
-    `a` (`Reopen.Trace`: each entry is exactly what an append or a clear logs), and the data store holds
+    `a` (`LiveRefine.Trace`: each entry is exactly what an append or a clear logs), and the data store holds
     `a`'s held blocks, then `Hypercore::new` yields a core satisfying `Rep` for `a` — from which
     `live_refinement` continues.  Replay = add the entry's nodes, redo the bitfield update, `truncate` to
     the new length (`full_roots` = reference roots, proved in `FullRoots`) and commit. -/
@@ -107,12 +112,48 @@ theorem reopen_refines (C : Crypto) (hC : HashWF C) (d : Disk) (ost : Oplog.Stat
     (hN : Offsets.NodesOK C a0.blocks {} d.tree)
     (hbits : ∀ i, (Bitfield.ofFile d.bitfield).get i = a0.held i) (hlt : ∀ i, a0.held i = true → i < a0.blocks.size)
     (hcontig : Core.FirstMissing (Bitfield.ofFile d.bitfield) hf.contiguous)
-    (hsmall0 : Small a0) (htrace : Reopen.Trace C a0 es a)
+    (hsmall0 : Small a0) (htrace : LiveRefine.Trace C a0 es a)
     (hdata : ∀ i, a.held i = true → ∀ k, k < Offsets.sz a.blocks i →
       Offsets.psum a.blocks i + k < d.data.size ∧ d.data.byte (Offsets.psum a.blocks i + k) = (a.blocks.getD i []).getD k 0)
     (hsmall : Small a) :
     ∃ c', Core.openCore C none d = .ok (c', []) ∧ Rep C c' d a :=
   Reopen.reopen_refines C hC d ost hf es a0 a sk hlog hlen hsig hsec hN hbits hlt hcontig hsmall0 htrace hdata hsmall
+
+/-- `Rep` and the ghost invariant `Persist` along a whole history -/
+theorem history_invariants (C : Crypto) (hC : HashWF C) (hS : SignWF C) (ops : List Op) :
+    ∀ (c : Core) (d : Disk) (a : Abs) (hf : Header) (a0 : Abs) (es : List Entry), Rep C c d a →
+      Persist.Persist C c d hf a0 es a → AllValid a ops →
+      Rep C (runC C (c, d) ops).1.1 (runC C (c, d) ops).1.2 (runA a ops).1
+        ∧ ∃ hf' a0' es', Persist.Persist C (runC C (c, d) ops).1.1 (runC C (c, d) ops).1.2 hf' a0' es' (runA a ops).1 := by
+  induction ops with
+  | nil => intro c d a hf a0 es h hp _; exact ⟨h, hf, a0, es, hp⟩
+  | cons op rest ih =>
+    intro c d a hf a0 es h hp hv
+    obtain ⟨_, h2⟩ := step_refines C hC c d a h op hv.1
+    obtain ⟨hf', a0', es', hp2⟩ := Persist.persist_step C hC hS c d hf a0 a es h hp op hv.1
+    exact ih _ _ _ hf' a0' es' h2 hp2 hv.2
+
+/-- **C01 across close and reopen (up to the oplog byte layer).**  After any history of a freshly
+    created core there are a header `hf`, a log `a0` and entries `es` — the header written by the last
+    flush, the log at that flush and the entries logged since, tracked by `Persist` — such that: whenever
+    the oplog store opens to `(hf, es)`, `Hypercore::new` on the four stores yields a core that
+    represents the same abstract log, so that `live_refinement` applies to every further call.
+    That the oplog store does open to the last flushed header and the entries written since is what
+    `C02.reopen_exact` / `C02.reachable` prove for the commit protocol and `C06.read_write` /
+    `C06.entries_read_back` for the byte layout. -/
+theorem history_then_reopen (C : Crypto) (hC : HashWF C) (hS : SignWF C) (pk sk : Bytes) (ops : List Op)
+    (hv : AllValid {} ops) :
+    ∃ c j, Core.openCore C (some (pk, some sk)) {} = .ok (c, j) ∧
+      ∃ hf es, ∀ ost, Oplog.openLog none (runC C (c, ({} : Disk).applyAll j) ops).1.2.oplog.toList = .ok ⟨ost, hf, [], es⟩ →
+        ∃ c', Core.openCore C none (runC C (c, ({} : Disk).applyAll j) ops).1.2 = .ok (c', [])
+          ∧ Rep C c' (runC C (c, ({} : Disk).applyAll j) ops).1.2 (runA {} ops).1 := by
+  obtain ⟨c, j, h1, h2, h3⟩ := Persist.init_both C pk sk
+  obtain ⟨hrep, hf, a0, es, hp⟩ := history_invariants C hC hS ops c _ {} _ {} [] h2 h3 hv
+  refine ⟨c, j, h1, hf, es, fun ost hlog => ?_⟩
+  obtain ⟨sk', hsk⟩ : ∃ sk', hf.secret = some sk' := by
+    rw [hp.hfSecret]; exact Option.isSome_iff_exists.mp hrep.writer
+  exact Reopen.reopen_refines C hC _ ost hf es a0 _ sk' hlog hp.hfLen hp.hfSig hsk hp.fileNodes hp.fileBits hp.held0Lt
+    hp.hfContig hp.small0 hp.trace hrep.data hrep.small
 
 /-- non-vacuity of the hypothesis on the hash functions: a record with constant non-zero 32-byte digests -/
 example : HashWF { leaf := fun _ => List.replicate 32 1, parent := fun _ _ _ => List.replicate 32 2, tree := fun _ => [],
